@@ -154,7 +154,7 @@ def corrupt(b, kind):
 def run(ctx):
     ctx.level = "model_checking"
     ctx.assumptions = [
-        "keep-alive pings are off (the default keepAliveInterval = 0); the registry keeps answering with the same endpoints, all on distinct hosts",
+        "keep-alive pings are off (the default keepAliveInterval = 0) except in the keep-alive plans (5 s interval); the registry keeps answering with the same endpoints, all on distinct hosts",
         "virtual time: the adapters' timestamps are shifted backwards, which equals advancing the clock because the health logic only "
         "evaluates now - t >= threshold; a behaviour that takes more than 3.5 s of wall time is retried, never judged",
         "a failed call is a call whose context ends before the (silent) server answers: cancelled by the driver once the server has "
@@ -169,8 +169,14 @@ def run(ctx):
         rp = json.load(open(ctx.replay)).get("replay", {})
         scripts = [rp["script"]]
         exe = gobuild.build(ctx, "fodrive")
-        res = replay(ctx, exe, scripts, "replay", timeout_every=0)
-        judge(ctx, scripts, res)
+        res = replay(ctx, exe, scripts, "replay", timeout_every=0, keepalive_ms=5000 if rp.get("keepalive") else 0)
+        if rp.get("keepalive"):
+            if res[0]["outcome"] == "ok":
+                for i, br in broken_clauses(scripts[0], len(scripts[0]["steps"])):
+                    ctx.violate("C15:keepalive-ping-booked-as-success:%s" % br, "reproduced: behaviour followed through step %d (%s)" % (i, br),
+                                {"kind": "replay", "keepalive": True, "script": scripts[0], "result": res[0]})
+        else:
+            judge(ctx, scripts, res)
         ctx.coverage = {"states": 0, "transitions": 0, "traces_validated_against_impl": len(res), "samples": [res[0]],
                         "evaluations": len(res), "distinct_nontrivial": len(res), "rule": "replay of one recorded behaviour"}
         return
@@ -182,6 +188,9 @@ def run(ctx):
     # ---- 3. TLC produces the behaviours
     # (family, N, checks overlap calls)
     plans = [("F1+F2+F3", 1, "FALSE"), ("F3+F4", 2, "FALSE"), ("F5", 3, "FALSE"), ("F6", 1, "TRUE"), ("F6", 2, "TRUE")]
+    # keep-alive configured (not the default): the same plans under the model of the code as it is (a sent ping is booked as a sent,
+    # successful call) and under the model of the repair (a sent ping leaves the health record alone)
+    ka_plans = [("F7", 2, "FALSE", "TRUE", "FALSE"), ("F7", 2, "FALSE", "TRUE", "TRUE")]
     # (N, call slots, checks overlap calls, behaviours, depth)
     sims = ctx.pick(
         [(1, "1", "FALSE", 100, 32), (2, "1", "FALSE", 250, 32), (3, "1", "FALSE", 250, 36), (4, "1", "FALSE", 100, 36),
@@ -191,9 +200,10 @@ def run(ctx):
          (4, "1, 2", "TRUE", 200, 48)])
 
     def gen_plan(p):
-        fam, n, ov = p
-        r = tlc.run(ctx, SPEC, "Plan_Failover", cfg="Plan_run.cfg", workers=1, timeout=300, name="plan-%s-%d" % (fam, n),
-                    extra_files={"Plan_run.cfg": tmpl("Plan.cfg.tmpl", N=n, F=fam, OV=ov)})
+        fam, n, ov = p[:3]
+        ka, pn = (p[3], p[4]) if len(p) > 3 else ("FALSE", "FALSE")
+        r = tlc.run(ctx, SPEC, "Plan_Failover", cfg="Plan_run.cfg", workers=1, timeout=300, name="plan-%s-%d-%s" % (fam, n, pn),
+                    extra_files={"Plan_run.cfg": tmpl("Plan.cfg.tmpl", N=n, F=fam, OV=ov, KA=ka, PN=pn)})
         if not r.success:
             raise Inconclusive("plan generation %s failed:\n%s" % (p, "\n".join(r.out.splitlines()[-30:])))
         out = behaviours_of(r.out, False)
@@ -205,7 +215,7 @@ def run(ctx):
         k, s = k_s
         n, calls, ov, num, depth = s
         r = tlc.run(ctx, SPEC, "Gen_Failover", cfg="Gen_run.cfg", workers=1, timeout=600, name="gen-%d" % k,
-                    extra_files={"Gen_run.cfg": tmpl("Gen.cfg.tmpl", N=n, CALLS=calls, OV=ov, D=depth, PB=85, PG=10)},
+                    extra_files={"Gen_run.cfg": tmpl("Gen.cfg.tmpl", N=n, CALLS=calls, OV=ov, KA="FALSE", D=depth, PB=85, PG=10)},
                     simulate="num=%d" % num, depth=depth, seed=ctx.seed * 1000 + k)
         out = behaviours_of(r.out, True)
         if not out:
@@ -218,6 +228,7 @@ def run(ctx):
     gen_states = 0
     with ThreadPoolExecutor(max_workers=4) as ex:
         pf = [ex.submit(gen_plan, p) for p in plans]
+        kf = [ex.submit(gen_plan, p) for p in ka_plans]
         sf = [ex.submit(gen_sim, ks) for ks in enumerate(sims)]
         nplans = 0
         for f in pf:
@@ -230,7 +241,10 @@ def run(ctx):
             scripts += out
             m = re.search(r"The number of states generated: (\d+)", r.out)
             gen_states += int(m.group(1)) if m else 0
-    ctx.log("behaviours: %d planned + %d walks" % (nplans, len(scripts) - nplans))
+    ka_coded, r1 = kf[0].result()
+    ka_fixed, r2 = kf[1].result()
+    gen_states += r1.distinct + r2.distinct
+    ctx.log("behaviours: %d planned + %d walks + 2 x %d keep-alive plans" % (nplans, len(scripts) - nplans, len(ka_coded)))
     try:
         exe = build_f.result()
     except Inconclusive as e:
@@ -239,8 +253,11 @@ def run(ctx):
         raise
 
     # ---- 3b. exhaustive model checking of the design (runs beside the replay)
-    cfgs = ctx.pick(["one_seq", "one_ovl", "two_quick"],
-                    ["one_seq", "one_ovl", "two_seq", "two_ovl", "two_conc", "two_fine", "three"])
+    cfgs = ctx.pick(["one_seq", "one_ovl", "two_quick", "one_keepalive", "one_keepalive_fixed"],
+                    ["one_seq", "one_ovl", "two_seq", "two_ovl", "two_conc", "two_fine", "three", "one_keepalive", "one_keepalive_fixed",
+                     "keepalive"])
+    # the model of the code AS IT IS with keep-alive configured must exhibit the recorded deviation, and nothing else
+    expect_broken = {"one_keepalive": "AllFailingLeavesAlways", "keepalive": "AllFailingLeaves"}
     mc_pool = ThreadPoolExecutor(max_workers=ctx.pick(3, 2))
     mc_futs = {c: mc_pool.submit(tlc.run, ctx, SPEC, "MC_Failover", cfg="MC_%s.cfg" % c, workers=4, timeout=ctx.pick(300, 840),
                                  name="mc-" + c, coverage=False) for c in cfgs}
@@ -259,6 +276,9 @@ def run(ctx):
     # ---- 4. directed replay on the real objects
     res = replay(ctx, exe, scripts, "main", timeout_every=10)
     counts = judge(ctx, scripts, res)
+    res_coded = replay(ctx, exe, ka_coded, "ka-coded", timeout_every=0, keepalive_ms=5000)
+    res_fixed = replay(ctx, exe, ka_fixed, "ka-fixed", timeout_every=0, keepalive_ms=5000)
+    ka = judge_keepalive(ctx, ka_coded, res_coded, ka_fixed, res_fixed)
     judged = counts.get("ok", 0) + counts.get("truncated", 0) + counts.get("diverged", 0)
     not_judged = len(scripts) - judged
     diverging = bool(ctx.violations)
@@ -298,7 +318,17 @@ def run(ctx):
     # ---- 6. the model itself
     mc, mc_states, mc_trans = {}, 0, 0
     for c, f in mc_futs.items():
-        r = tlc.require_clean(f.result(), "MC_Failover/" + c)
+        r = f.result()
+        if c in expect_broken:
+            if r.success or r.prop_violated != [expect_broken[c]] or r.inv_violated:
+                raise Inconclusive("MC_%s: the model of keep-alive as coded should violate exactly %s:\n%s"
+                                   % (c, expect_broken[c], "\n".join(r.out.splitlines()[-40:])))
+            mc[c] = {"distinct": r.distinct, "generated": r.generated, "wall_s": round(r.wall, 1),
+                     "expected_counterexample": expect_broken[c] + " violated (keep-alive ping booked as a successful call)"}
+            mc_states += r.distinct
+            mc_trans += r.generated
+            continue
+        r = tlc.require_clean(r, "MC_Failover/" + c)
         mc[c] = {"distinct": r.distinct, "generated": r.generated, "depth": r.depth, "wall_s": round(r.wall, 1)}
         mc_states += r.distinct
         mc_trans += r.generated
@@ -332,6 +362,7 @@ def run(ctx):
             "endpoints": sorted({b["n"] for b in scripts}),
             "timeout_mode_behaviours": sum(1 for r in res if r["mode"] == "timeout"),
         },
+        "keep_alive_configured": ka,
         "selftest_corrupted_projections": selftest,
         "observations": {
             "probe_calls_closer_than_30s_although_admissions_are_not": close_calls,
@@ -354,13 +385,14 @@ def run(ctx):
     }
 
 
-def replay(ctx, exe, scripts, name, timeout_every):
+def replay(ctx, exe, scripts, name, timeout_every, keepalive_ms=0):
     sfile = os.path.join(ctx.work, "scripts-%s.ndjson" % name)
     with open(sfile, "w") as f:
         for s in scripts:
-            f.write(json.dumps({k: v for k, v in s.items() if k != "src"}) + "\n")
+            f.write(json.dumps({k: v for k, v in s.items() if k not in ("src", "plan")}) + "\n")
     rfile = os.path.join(ctx.work, "results-%s.ndjson" % name)
-    sh([exe, "replay", "-in", sfile, "-out", rfile, "-par", "12", "-timeout-every", str(timeout_every)], timeout=800)
+    sh([exe, "replay", "-in", sfile, "-out", rfile, "-par", "12", "-timeout-every", str(timeout_every),
+        "-keepalive-ms", str(keepalive_ms)], timeout=800)
     res = [json.loads(l) for l in open(rfile)]
     res.sort(key=lambda r: r["idx"])
     if len(res) != len(scripts):
@@ -368,10 +400,57 @@ def replay(ctx, exe, scripts, name, timeout_every):
     return res
 
 
+def broken_clauses(sc, upto):
+    out = []
+    for i, st in enumerate(sc["steps"][:upto]):
+        for b in st.get("breaks", []):
+            out.append((i, b))
+    return out
+
+
+def judge_keepalive(ctx, coded, res_coded, fixed, res_fixed):
+    """Keep-alive configured.  The real code must follow one of the two models; following the model of the code as it is
+    through a step TLC marks as breaking a clause of C15 is a reproduced violation."""
+    by_plan = {json.dumps(b["plan"], sort_keys=True): (b, r) for b, r in zip(fixed, res_fixed)}
+    out = {"plans": len(coded), "follows_model_of_code_as_is": 0, "follows_model_of_repair": 0, "follows_neither": 0,
+           "reproduced_clause_breaks": 0}
+    for b, r in zip(coded, res_coded):
+        fb, fr = by_plan[json.dumps(b["plan"], sort_keys=True)]
+        if r["outcome"] == "ok":
+            out["follows_model_of_code_as_is"] += 1
+            for i, br in broken_clauses(b, len(b["steps"])):
+                out["reproduced_clause_breaks"] += 1
+                ctx.violate("C15:keepalive-ping-booked-as-success:%s" % br,
+                            "with client keep-alive configured the real objects follow, step by step, a behaviour that breaks C15 at step %d "
+                            "(%s): the ping sent by the status check is booked as a successful call, so an endpoint whose calls all "
+                            "fail is not taken out of rotation" % (i, br),
+                            {"kind": "replay", "keepalive": True, "script": b, "result": r})
+        elif fr["outcome"] == "ok":
+            out["follows_model_of_repair"] += 1
+            for i, br in broken_clauses(fb, len(fb["steps"])):
+                ctx.violate("C15:clause-broken:%s" % br, "real objects follow a behaviour that breaks C15 at step %d (%s)" % (i, br),
+                            {"kind": "replay", "keepalive": True, "script": fb, "result": fr})
+        else:
+            out["follows_neither"] += 1
+            bad = fr if fr["outcome"] == "diverged" else r
+            if bad["outcome"] == "diverged":
+                ctx.violate("C15:replay-diverged:keepalive:%s:%s" % (bad.get("action"), bad.get("field")),
+                            "keep-alive configured: real objects follow neither model at step %d: %s; expected %s, got %s"
+                            % (bad["step"], bad.get("why"), bad.get("expected"), bad.get("got")),
+                            {"kind": "replay", "keepalive": True, "script": fb, "result": bad})
+    return out
+
+
 def judge(ctx, scripts, res):
     counts = {}
     for r in res:
         counts[r["outcome"]] = counts.get(r["outcome"], 0) + 1
+        if r["outcome"] in ("ok", "truncated"):
+            sc = scripts[r["idx"]]
+            for i, br in broken_clauses(sc, r["steps_done"]):
+                ctx.violate("C15:clause-broken:%s" % br,
+                            "real failover objects follow, step by step, a behaviour that breaks C15 at step %d (%s)" % (i, br),
+                            {"kind": "replay", "script": sc, "result": r})
         if r["outcome"] != "diverged":
             continue
         sc = scripts[r["idx"]]
